@@ -406,3 +406,39 @@ def bytes_eq(c):
         out.append((s_eq, Cond("const", not ne)))
     out.append((s_ne, Cond("const", ne)))
     return out
+
+
+# ------------------------------------------------------------------------------------------------ membership in a short list
+
+def known_eq(st, a, b):
+    """True / False when the two scalar(-newtype) values are known equal / different, else None"""
+    n = 0
+    while isinstance(a, Struct) and len(a.f) == 1 and isinstance(b, Struct) and len(b.f) == 1 and n < 3:
+        a, b = next(iter(a.f.values())), next(iter(b.f.values()))
+        n += 1
+    if not (isinstance(a, Num) and isinstance(b, Num)):
+        return None
+    if st.sys.entails_eq(a.e - b.e):
+        return True
+    s2 = st.sys.copy()
+    s2.add_eq(a.e - b.e)
+    if s2.bottom or not s2.feasible():
+        return False
+    return None
+
+
+@first(r"^core::slice::<impl \[.*\]>::contains$")
+def slice_contains(c):
+    """x in list, for a list whose elements are known one by one"""
+    lst = c.deref(c.args[0])
+    x = c.deref(c.args[1])
+    if isinstance(lst, Seq) and isinstance(lst.items, Empty):
+        return [(c.st, Cond("const", False))]
+    if not (isinstance(lst, Seq) and is_listed(lst.items)):
+        return [(c.st, TOP)]
+    res = [known_eq(c.st, lst.items.f[i], x) for i in sorted(lst.items.f)]
+    if any(r is True for r in res):
+        return [(c.st, Cond("const", True))]
+    if all(r is False for r in res):
+        return [(c.st, Cond("const", False))]
+    return [(c.st, TOP)]
